@@ -11,13 +11,13 @@ H_STUBS = ['_dispatch_calloc', 'calloc', 'malloc', 'free', '_os_object_alloc_rea
 H_ICALL = ['_dispatch_lane_push', '_dispatch_lane_concurrent_push', '_dispatch_lane_wakeup', '_dispatch_root_queue_push', '_dispatch_lane_invoke', '_dispatch_lane_activate',
            '_dispatch_async_and_wait_invoke', '_dispatch_root_queue_wakeup', '_dispatch_sync_function_invoke', '_dispatch_lane_invoke2', '_dispatch_async_redirect_invoke', '_dispatch_object_no_invoke', '_dispatch_object_no_activate']
 UNWINDSET = ('hist_threads_init.0:13,hist_threads_init.1:4,harness.0:10,harness.1:10,harness.2:10,harness.3:10,harness.4:10,harness.5:10,harness.6:10,run_one_worker.0:9,'
-             '_dispatch_futex_wait.0:9,hist_item_body.0:5,ir_obj_find.0:50,_dispatch_lane_drain.0:8,_dispatch_lane_drain.1:8,_dispatch_lane_drain.2:8,_dispatch_lane_drain_non_barriers.0:8')   # the drain loops: up to 6 queued items (longest thorough sequences) + 1
-def HH(seq, conc=False, chain=False, bottomconc=False, fanin=False, indep=False, inactive=False, settarget=False, qos=0, extra=(), tiers=('quick', 'thorough'), timeout=600, stubs_extra=(), icall_extra=(), entries_extra=(), real_dispose=False, name_extra=''):
-    d = ['-DSEQ="%s"' % seq] + (['-DQCONC'] if conc else []) + (['-DCHAIN', '-DSERIAL_DOMAIN'] if chain else []) + (['-DCHAIN', '-DBOTTOMCONC'] if bottomconc else []) + (['-DFANIN', '-DSERIAL_DOMAIN'] if fanin else []) + \
+             '_dispatch_futex_wait.0:9,_dispatch_runloop_queue_poke.0:10,_dispatch_main_queue_drain.0:8,hist_item_body.0:5,ir_obj_find.0:50,_dispatch_lane_drain.0:8,_dispatch_lane_drain.1:8,_dispatch_lane_drain.2:8,_dispatch_lane_drain_non_barriers.0:8')   # the drain loops: up to 6 queued items (longest thorough sequences) + 1
+def HH(seq, conc=False, chain=False, bottomconc=False, mainq=False, fanin=False, indep=False, inactive=False, settarget=False, qos=0, extra=(), tiers=('quick', 'thorough'), timeout=600, stubs_extra=(), icall_extra=(), entries_extra=(), real_dispose=False, name_extra=''):
+    d = ['-DSEQ="%s"' % seq] + (['-DQCONC'] if conc else []) + (['-DCHAIN', '-DSERIAL_DOMAIN'] if chain else []) + (['-DCHAIN', '-DBOTTOMCONC'] if bottomconc else []) + (['-DCHAIN', '-DSERIAL_DOMAIN', '-DMAINQ'] if mainq else []) + (['-DFANIN', '-DSERIAL_DOMAIN'] if fanin else []) + \
         (['-DINDEP'] if indep else []) + (['-DINACTIVE'] if inactive else []) + (['-DSETTARGET'] if settarget else []) + (['-DQOSATTR=%d' % qos] if qos else []) + list(extra)
-    cfg = ('conc' if conc else 'serial') + ('_chain' if chain else '') + ('_onconc' if bottomconc else '') + ('_fanin' if fanin else '') + ('_indep' if indep else '') + ('_inactive' if inactive else '') + ('_settarget' if settarget else '') + ('_qos%d' % qos if qos else '') + name_extra
-    stubs = list(H_STUBS) + list(stubs_extra) + ([] if real_dispose else ['_dispatch_dispose', '_dispatch_xref_dispose'])
-    return H('H_%s_%s' % (cfg, seq.replace('^', 'n').replace('~', 'i')), '../common/h_hist.c', H_ENTRIES + list(entries_extra), stubs=stubs, noglobal=['_dispatch_queue_attrs', '_dispatch_mgr_q'], icall_only=H_ICALL + list(icall_extra), nt=3, heap=4096,
+    cfg = ('conc' if conc else 'serial') + ('_chain' if chain else '') + ('_onconc' if bottomconc else '') + ('_onmain' if mainq else '') + ('_fanin' if fanin else '') + ('_indep' if indep else '') + ('_inactive' if inactive else '') + ('_settarget' if settarget else '') + ('_qos%d' % qos if qos else '') + name_extra
+    stubs = list(H_STUBS) + list(stubs_extra) + (['_dispatch_runloop_queue_poke', '_dispatch_thread_override_end', 'dispatch_once_f', '_dispatch_force_cache_cleanup'] if mainq else []) + ([] if real_dispose else ['_dispatch_dispose', '_dispatch_xref_dispose'])
+    return H('H_%s_%s' % (cfg, seq.replace('^', 'n').replace('~', 'i')), '../common/h_hist.c', H_ENTRIES + list(entries_extra) + (['_dispatch_main_q', '_dispatch_main_queue_callback_4CF'] if mainq else []), stubs=stubs, noglobal=['_dispatch_queue_attrs', '_dispatch_mgr_q'], icall_only=H_ICALL + list(icall_extra) + (['_dispatch_main_queue_push', '_dispatch_main_queue_wakeup', '_dispatch_sync_thread_bound_invoke', '_dispatch_queue_no_activate', '_dispatch_lane_activate'] if mainq else []), nt=3, heap=4096,
              defines=d + (['-DREAL_DISPOSE'] if real_dispose else []), probes=HIST_PROBES, unwind=4, unwindset=UNWINDSET, timeout=timeout, tiers=tiers, weak_cas=False, mem_gb=16,
              note='history "%s" on a %s top queue%s%s%s' % (seq, 'concurrent' if conc else 'serial', ' targeting a serial queue' if chain else (' targeting a custom concurrent queue' if bottomconc else ''), ' (two queues fan-in on one serial queue)' if fanin else '', ' created inactive' if inactive else ''),
              symbolic=False, witness_any=True)
